@@ -40,18 +40,22 @@ DropSoft(m, d) ==
     LET old == m.s.al[d].soft
         m1 == [m EXCEPT !.s.al[d].soft = old - 1]
     IN IF old = 1 THEN Ev(m1, <<"freed", d>>) ELSE m1
-(* the hard-count half of cstl_shared_ptr_reset *)
+(* cstl_weak_ptr_reset(w): also what a re-entrant clear callback does to W1 *)
+WResetRaw(m, w) == LET d == m.s.wp[w] IN
+                   IF d = 0 THEN m ELSE DropSoft([m EXCEPT !.s.wp[w] = 0], d)
+(* the hard-count half of cstl_shared_ptr_reset; the clear callback runs inside cstl_unique_ptr_reset, before
+   the memory is freed, and may call back into the library (clr = 2: it resets weak pointer W1) *)
 DropHard(m, d) ==
     LET old == m.s.al[d].hard
         m1 == [m EXCEPT !.s.al[d].hard = old - 1]
     IN IF old = 1
-       THEN LET m2 == IF m1.s.al[d].clr THEN Ev(m1, <<"clr", d>>) ELSE m1
-            IN [Ev(m2, <<"freem", d>>) EXCEPT !.s.al[d].mem = FALSE, !.s.al[d].clr = FALSE]
+       THEN LET m2 == IF m1.s.al[d].clr > 0 THEN Ev(m1, <<"clr", d>>) ELSE m1
+                m3 == IF m1.s.al[d].clr = 2 /\ NW >= 1 THEN WResetRaw(m2, 1) ELSE m2
+            IN [Ev(m3, <<"freem", d>>) EXCEPT !.s.al[d].mem = FALSE, !.s.al[d].clr = 0]
        ELSE m1
 SResetM(m, s) == LET d == m.s.sp[s] IN
                  IF d = 0 THEN m ELSE DropSoft([DropHard(m, d) EXCEPT !.s.sp[s] = 0], d)
-WResetM(m, w) == LET d == m.s.wp[w] IN
-                 IF d = 0 THEN m ELSE DropSoft([m EXCEPT !.s.wp[w] = 0], d)
+WResetM(m, w) == WResetRaw(m, w)
 
 (* cstl_shared_ptr_alloc(sp, sz, clr): sz = 0 only resets *)
 SAllocM(m0, s, withclr, zero) ==
@@ -160,7 +164,7 @@ LifeOK(pre, tsp, twp, ev) ==
     IN /\ NoDup(Targets(ev, "freem")) /\ NoDup(Targets(ev, "freed")) /\ NoDup(Targets(ev, "clr"))
        /\ SeqSet(Targets(ev, "freem")) \ {NEWB} = lostOwner
        /\ SeqSet(Targets(ev, "freed")) \ {NEWB} = lostRef
-       /\ SeqSet(Targets(ev, "clr")) = {d \in lostOwner : pre.al[d].clr}
+       /\ SeqSet(Targets(ev, "clr")) = {d \in lostOwner : pre.al[d].clr > 0}
        /\ \A d \in lostOwner : Before(ev, <<"clr", d>>, <<"freem", d>>) /\ Before(ev, <<"freem", d>>, <<"freed", d>>)
 
 (***************************************************************************)
@@ -178,7 +182,10 @@ UEv(ev) == SelectSeq(ev, LAMBDA e : e[1] \in {"uclr", "ufree"})
 Allocs(ev) == SelectSeq(ev, LAMBDA e : e[1] \in {"allocd", "allocm", "allocu", "allocfail"})
 Contract(o, pre, post, nlive, tsp, twp, ev, ret) ==
     LET sameS(X) == \A x \in SP \ X : tsp[x] = pre.sp[x]
-        sameW(X) == \A x \in WP \ X : twp[x] = pre.wp[x]
+        \* a clear callback of kind 2 ran: it reset weak pointer W1 before the memory was freed
+        cbReset == \E i \in 1..Len(ev) : ev[i][1] = "clr" /\ ev[i][2] # NEWB /\ pre.al[ev[i][2]].clr = 2
+        wBefore(x) == IF cbReset /\ x = 1 THEN 0 ELSE pre.wp[x]
+        sameW(X) == \A x \in WP \ X : twp[x] = wBefore(x)
         sameU(X) == \A x \in UP \ X : post.up[x] = pre.up[x]
         ownersLeft(d, s) == Owners(pre, d) \ {s} # {}
         uDrop(u) == (IF pre.up[u].clr THEN << <<"uclr", u>> >> ELSE <<>>)
@@ -208,7 +215,7 @@ Contract(o, pre, post, nlive, tsp, twp, ev, ret) ==
          [] o.op = "wfrom" -> twp[o.w] = pre.sp[o.s] /\ sameW({o.w}) /\ sameS({}) /\ sameU({})
          [] o.op = "wlock" ->
               /\ sameS({o.s}) /\ sameW({}) /\ sameU({})
-              /\ LET d == pre.wp[o.w] IN
+              /\ LET d == wBefore(o.w) IN                                   \* (W1 may just have been reset by a callback)
                  tsp[o.s] = (IF d # 0 /\ ownersLeft(d, o.s) THEN d ELSE 0)   \* an owner iff an owner still exists
          [] o.op = "wswap" -> twp[o.a] = pre.wp[o.b] /\ twp[o.b] = pre.wp[o.a] /\ sameW({o.a, o.b}) /\ sameS({}) /\ sameU({}) /\ ev = <<>>
          [] o.op = "wreset" -> twp[o.w] = 0 /\ sameW({o.w}) /\ sameS({}) /\ sameU({})
